@@ -156,8 +156,24 @@ def processor_history(rng):
                 pass
         return rel
     x = some_ops(some_ops(leaf, rng.choice([0, 1])).transferred_to(dest), rng.choice([0, 1, 2]))
-    shape = rng.choice(["plain", "doomed_rhs", "doomed_lhs", "doomed_rhs", "user_marker", "user_marker"])
-    if shape == "user_marker":
+    shape = rng.choice(["plain", "doomed_rhs", "doomed_lhs", "doomed_rhs", "user_marker", "user_marker", "trivial_doomed", "trivial_doomed",
+                        "trivial_identity"])
+    if shape == "trivial_doomed":
+        # a statically empty relation (trivially false selection, or a join with a doomed relation) above a transfer that
+        # is not: its materialization needs no hook, but the payload still has to land on the node the caller holds
+        if isinstance(dest, sql.Engine) and rng.random() < 0.5:
+            x = x.join(dest.make_doomed_relation({c for c in x.columns if c.is_key}, ["doomed by the harness"], name="D0"))
+        else:
+            x = x.with_rows_satisfying(dr.Predicate.literal(False))
+    elif shape == "trivial_identity":
+        # exactly one row, no columns (the join identity) computed from a one-row leaf in another engine
+        payload = CountingSequence([dict(rows[0])] if rows else [dict.fromkeys(cols, 1)])
+        leaf = src.make_leaf(set(cols), payload=payload, name="L1")
+        c0 = sorted(cols)[0]
+        x = leaf.with_calculated_column(gen.fresh_tag(rng, set(cols)), enc.iexpr(("add", ("ref", c0), ("lit", 1)))).transferred_to(dest)
+        x = x.with_only_columns(set())
+        assert x.is_join_identity, "the harness meant to build a join identity"
+    elif shape == "user_marker":
         # a user-defined marker (the documented extension point) directly above the transfer, below the materialization
         x = UserMarker(target=some_ops(leaf, rng.choice([0, 1])).transferred_to(dest))
         if rng.random() < 0.4:
